@@ -822,7 +822,7 @@ func (c *converter) addEndLine(line string) {
 }
 
 func (c *converter) mustCurrentForLabel() string {
-	return forLabel(c.forCounter - 1)
+	return c.fors[len(c.fors)-1].label // Label of the innermost loop that is still open.
 }
 
 func (c *converter) mustCurrentForVar() string {
@@ -884,7 +884,7 @@ func (c *converter) popEndLabel() string {
 }
 
 func (c *converter) nextEndLabel() string {
-	c.endLabels = append(c.endLabels, fmt.Sprintf(":_e%d", len(c.endLabels)))
+	c.endLabels = append(c.endLabels, fmt.Sprintf(":_e%d", c.forCounter-1)) // Number of the loop that has just been started, every loop has its own end label.
 	return c.mustCurrentEndLabel()
 }
 
